@@ -1139,6 +1139,24 @@ class FuncTranslator:
     def for_stmt(self, st, rest, env):
         if all(isinstance(b, (ast.Assert, ast.Pass)) for b in st.body):
             return self.block(rest, env)
+        if not st.orelse and contains_return(st.body):
+            # search loop:  for x in L: <assignments>; if cond: return E      (first hit wins)
+            last = st.body[-1]
+            pre_b = st.body[:-1]
+            if isinstance(last, ast.If) and not last.orelse and len(last.body) == 1 and isinstance(last.body[0], ast.Return) \
+                    and not contains_return(pre_b) and not [n for n in assigned_names(pre_b) if n in env]:
+                it = self.iterable(st.iter, env)
+                env_b = dict(env)
+                pat = self.pattern(st.target, it.t.t, env_b)
+                pre_s, env_c = self.branch_tuple(list(pre_b), env_b, []) if pre_b else ('', env_b)
+                c = self.cond(last.test, env_c)
+                rv = self.expr(last.body[0].value, env_c) if last.body[0].value is not None else Val('tt', NONE)
+                hit = self.ret(rv)
+                rest_s = self.block(rest, env)
+                rt = self.ret_ty.coq() if self.pass_no == 2 else '_'
+                return ('match fold_left (fun (acc_ : option (%s)) %s => match acc_ with Some r_ => Some r_ | None => %sif %s then Some (%s) '
+                        'else None end) %s None with\n  | Some r_ => r_\n  | None => %s\n  end' % (
+                            rt, pat, pre_s, c, hit, paren(it.s), rest_s))
         if st.orelse or contains_return(st.body):
             self.fail(st, 'for loop with return/break/continue/else')
         it = self.iterable(st.iter, env)
